@@ -73,9 +73,11 @@ def run(tier='quick', seed=0):
         k = rng.random()
         if d <= 0 or k < 0.35:
             return rng.choice([x, y, z, Nat(0), Nat(1), Nat(2), Nat(3)])
-        if k < 0.7:
+        if k < 0.65:
             return gen_nat(d - 1) + gen_nat(d - 1)
-        return gen_nat(d - 1) * gen_nat(d - 1)
+        if k < 0.9:
+            return gen_nat(d - 1) * gen_nat(d - 1)
+        return K.nat_power(NatType)(gen_nat(d - 1), Nat(rng.choice([0, 1, 2, 2, 3])))
 
     def rearrange(t, T):
         """A term equal to t as a polynomial: random commutation / re-association / distribution."""
@@ -98,7 +100,22 @@ def run(tier='quick', seed=0):
                 v0 = rng.choice([zero, K.times(T)(zero, rng.choice([a, b])), K.times(T)(rng.choice([a, b]), zero)])
                 res = rng.choice([lambda: res + v0, lambda: v0 + res, lambda: res * one, lambda: one * res])()
             return res
+        if t.is_comb('power', 2) and t.arg.is_number() and t.arg.get_type() == NatType and t.arg.dest_number() <= 4:
+            # a power with a numeral exponent written out as a product (or partly: b^(n-1) * b)
+            base, n_ = t.arg1, t.arg.dest_number()
+            r = rng.random()
+            if r < 0.45:
+                res = K.Number(T, 1) if n_ == 0 else rearrange(base, T)
+                for _ in range(n_ - 1):
+                    res = res * rearrange(base, T)
+                return res
+            if r < 0.7 and n_ >= 2:
+                return K.nat_power(T)(rearrange(base, T), Nat(n_ - 1)) * base
+            return K.nat_power(T)(rearrange(base, T), t.arg)
         return t
+
+    def has_power(t):
+        return t.is_comb('power', 2) or (t.is_comb() and (has_power(t.fun) or has_power(t.arg)))
 
     n = 250 if tier == 'quick' else 4000
     for it in range(3 * n):
@@ -109,7 +126,8 @@ def run(tier='quick', seed=0):
         t2 = rearrange(t, NatType)
         pt2 = check_conv('nat.norm_full', nat.norm_full(), t2)
         if pt2 is not None and pt.prop.rhs != pt2.prop.rhs:
-            violations.append({'function': 'conversion nat.norm_full', 'clause': 'canonical',
+            violations.append({'function': 'conversion nat.norm_full',
+                               'clause': 'canonical:nat-power-opaque' if has_power(t) else 'canonical',
                                'what': 'equal polynomials get different normal forms %s / %s' % (pt.prop.rhs, pt2.prop.rhs),
                                'term': repr(t), 'rearranged': repr(t2)})
         pt3 = check_conv('nat.norm_full', nat.norm_full(), pt.prop.rhs)
@@ -130,9 +148,11 @@ def run(tier='quick', seed=0):
             return rng.choice([xr, yr, Real(0), Real(1), Real(2), Real(-1)])
         if k < 0.6:
             return gen_real(d - 1) + gen_real(d - 1)
-        if k < 0.75:
+        if k < 0.72:
             return gen_real(d - 1) - gen_real(d - 1)
-        return gen_real(d - 1) * gen_real(d - 1)
+        if k < 0.9:
+            return gen_real(d - 1) * gen_real(d - 1)
+        return K.nat_power(RealType)(gen_real(d - 1), Nat(rng.choice([0, 1, 2, 3, 3, 4])))
 
     for it in range(n):
         t = gen_real(rng.choice([1, 2, 3]))
@@ -296,6 +316,48 @@ def run(tier='quick', seed=0):
                                            'what': 'equation for %s has hypotheses %s, supplied conditions: %s' % (
                                                src_, [repr(h) for h in pt_.hyps], [repr(h) for h in allowed]),
                                            'term': src_})
+        # canonicity of auto.auto_conv on real polynomials (the 'auto' method decides equalities with it): the
+        # rearrangements of the real family, incl. powers <-> products.  Powers with exponent >= 4 of a base that is
+        # not a monomial are a recorded finding (left unexpanded), classified separately.
+        def sum_pow_ge4(t):
+            if t.is_comb('power', 2) and t.arg.is_number() and t.arg.dest_number() >= 4 and \
+                    (t.arg1.is_plus() or t.arg1.is_minus() or has_power(t.arg1) or t.arg1.is_times()):
+                return True
+            return t.is_comb() and (sum_pow_ge4(t.fun) or sum_pow_ge4(t.arg))
+        rpw = K.nat_power(RealType)
+        pairs_ = []
+        for base in (xr + yr, xr - yr, xr + Real(1), Real(2) * xr + yr, xr * yr + Real(1), xr * yr, Real(3) * xr):
+            for e_ in (0, 1, 2, 3):
+                spell = [rpw(base, Nat(e_))]
+                prod_ = Real(1)
+                for _ in range(e_):
+                    prod_ = base if prod_ == Real(1) else prod_ * base
+                spell.append(prod_)
+                if e_ >= 1:
+                    spell += [rpw(base, Nat(e_ - 1)) * base, base * rpw(base, Nat(e_ - 1))]
+                pairs_ += [(spell[0], s_) for s_ in spell[1:]]
+        pairs_ += [(None, None)] * (n // 2)
+        for t, t2 in pairs_:
+            if t is None:
+                t = gen_real(rng.choice([1, 2, 3]))
+                t2 = rearrange(t, RealType)
+            evals += 1
+            try:
+                pt = auto.auto_conv().get_proof_term(t)
+                pt2 = auto.auto_conv().get_proof_term(t2)
+            except Exception:
+                continue
+            distinct.add(('auto_conv', repr(t)))
+            if pt.prop.lhs != t or pt.hyps:
+                violations.append({'function': 'conversion auto.auto_conv', 'clause': 'equation-about-t',
+                                   'what': 'left side %s, hypotheses %s' % (pt.prop.lhs, [str(h) for h in pt.hyps]),
+                                   'term': repr(t)})
+            if pt.prop.rhs != pt2.prop.rhs:
+                violations.append({'function': 'conversion auto.auto_conv',
+                                   'clause': 'canonical:power-ge4-unexpanded' if sum_pow_ge4(t) or sum_pow_ge4(t2)
+                                   else 'canonical',
+                                   'what': 'equal polynomials get different normal forms %s / %s' % (pt.prop.rhs, pt2.prop.rhs),
+                                   'term': repr(t), 'rearranged': repr(t2)})
         basic.load_theory('real')
     except Exception as e_:
         samples.append({'auto_conv_part': 'skipped: %s: %s' % (type(e_).__name__, str(e_)[:120])})
